@@ -1,6 +1,10 @@
 use std::collections::VecDeque;
+#[cfg(not(folo_verif_loom))]
 use std::sync::{Arc, Mutex};
 use std::task::{Context, Poll, Waker};
+
+#[cfg(folo_verif_loom)]
+use loom::sync::{Arc, Mutex};
 
 use crate::erased_future::ErasedFutureHandle;
 use crate::waker_meta::{self, MetaPtr};
@@ -230,6 +234,31 @@ impl<T> FutureDequeCore<T> {
         } else {
             Poll::Pending
         }
+    }
+}
+
+/// Verification-only read-only probes (`cfg(folo_verif)`), used by the model-checking harnesses
+/// in `/verif`.
+#[cfg(folo_verif)]
+impl<T> FutureDequeCore<T> {
+    /// Per slot front-to-back: `None` for a ready slot, `Some((ref_count, activated))` for a
+    /// pending one.
+    pub(crate) fn verif_slots(&self) -> Vec<Option<(usize, usize)>> {
+        self.slots
+            .iter()
+            .map(|slot| match slot {
+                Slot::Pending { meta, .. } => Some(waker_meta::verif_meta_state(*meta)),
+                Slot::Ready { .. } => None,
+            })
+            .collect()
+    }
+
+    /// Whether the stored parent waker would wake the same task as `waker`.
+    pub(crate) fn verif_parent_will_wake(&self, waker: &Waker) -> bool {
+        self.shared_parent
+            .lock()
+            .expect("we never panic while holding this lock")
+            .will_wake(waker)
     }
 }
 
